@@ -463,6 +463,9 @@ let () =
   let cur = ref (-1) in
   let opt_hex s = if s = "-" then None else Some (unxh s) in
   List.iter (fun line ->
+    (* a script recorded against a library that behaves differently from the model can name handles the model never
+       created: that ends THIS script with a Q line (a correspondence difference), not the whole run *)
+    try
     match split_ws line with
     | ["SCRIPT"; k] ->
       flush_script !cur; cur := int_of_string k;
@@ -530,5 +533,8 @@ let () =
         | "serialize_elem" -> OpSerializeElem (h 0)
         | _ -> failwith ("unknown op2 " ^ name)) in
       run1 o
-    | _ -> ()) lines;
+    | _ -> ()
+    with Failure msg -> out ("Q driver: " ^ msg); stopped := true
+       | Not_found -> out "Q driver: Not_found"; stopped := true
+       | Invalid_argument msg -> out ("Q driver: " ^ msg); stopped := true) lines;
   flush_script !cur
